@@ -2,7 +2,7 @@
 //! plus all valid entry sequences for pack / lower-depth.
 
 use crate::bm::*;
-use crate::c07::{universe, Chain, UniverseSpec};
+use crate::c07::{staircase, universe, Chain, UniverseSpec};
 use crate::report::*;
 use cdshealpix::nested::bmoc::{BMOCBuilderFixedDepth, BMOCBuilderUnsafe};
 use serde_json::{json, Map, Value};
@@ -175,6 +175,7 @@ pub fn run(ctx: &Ctx) -> i32 {
     Small(u8),
     Bulk(u8, u64),
     Sweep(u64, u64),
+    Stairs(usize, usize),
   }
   let mut jobs: Vec<Job> = (0..njobs_hist).map(Job::Hist).collect();
   let run_depths: Vec<u8> = if quick { vec![3] } else { vec![3, 4, 6] };
@@ -204,6 +205,37 @@ pub fn run(ctx: &Ctx) -> i32 {
   let seq_universe = universe(&UniverseSpec { name: "seq", dmax: 2, chain: Chain::First, partial: true, unpacked: true, other_bases: &[11], all_depth_max: true });
   let seq_universe3 = if quick { vec![] } else { universe(&UniverseSpec { name: "seq3", dmax: 3, chain: Chain::Last, partial: false, unpacked: true, other_bases: &[], all_depth_max: true }) };
   let all_seq: Vec<Bm> = seq_universe.into_iter().chain(seq_universe3.into_iter()).collect();
+  // merge cascades: every cascade length 1..=29 on 3k + 1 entries (staircases), 4 child paths,
+  // all full / one partial stair (the cascade must stop there) / partial last cell
+  let mut stairs: Vec<Bm> = vec![];
+  for dm in 1..=29u8 {
+    for (top, root) in [(0u8, 5u64), (2, 117)] {
+      if top >= dm {
+        continue;
+      }
+      for path in 0..4u8 {
+        let (mut e, last) = staircase(top, root, dm, path);
+        e.push(last);
+        e.sort_by_key(|x| x.1 << (2 * (dm - x.0) as u32));
+        stairs.push(Bm::new(dm, e.clone()));
+        let mut e2 = e.clone();
+        let mid = e2.len() / 2;
+        e2[mid].2 = false;
+        stairs.push(Bm::new(dm, e2));
+        let mut e3 = e.clone();
+        let k = e3.iter().position(|x| *x == last).unwrap();
+        e3[k].2 = false;
+        stairs.push(Bm::new(dm, e3));
+      }
+    }
+  }
+  {
+    let mut lo = 0;
+    while lo < stairs.len() {
+      jobs.push(Job::Stairs(lo, (lo + 64).min(stairs.len())));
+      lo += 64;
+    }
+  }
   let chunk = 256;
   let mut lo = 0;
   while lo < all_seq.len() {
@@ -423,6 +455,22 @@ pub fn run(ctx: &Ctx) -> i32 {
           }
         }
       }
+      Job::Stairs(lo, hi) => {
+        for bm in &stairs[*lo..*hi] {
+          part.stratum("merge-cascade-sequences", 1, 1);
+          if let Some(v) = check_sequence("to_bmoc_packing", bm, None, &mut part) {
+            part.viol(v);
+          }
+          for nd in 0..bm.depth_max.min(4) {
+            for op in ["to_lower_depth_bmoc", "to_lower_depth_bmoc_packing"] {
+              part.stratum("merge-cascade-sequences", 1, 1);
+              if let Some(v) = check_sequence(op, bm, Some(nd), &mut part) {
+                part.viol(v);
+              }
+            }
+          }
+        }
+      }
       Job::Seq(lo, hi) => {
         for bm in &all_seq[*lo..*hi] {
           part.stratum("pack-sequences", 1, 1);
@@ -449,6 +497,7 @@ pub fn run(ctx: &Ctx) -> i32 {
       "runs": format!("consecutive runs of length 1..{} from 13 aligned/unaligned starts at depths {:?}, 6 push orders (asc, desc, interleaved, duplicated, duplicated+repeat, gap), 12 capacities, both flags", if quick { 70 } else { 300 }, run_depths),
       "bulk": "per depth (6, 9 quick; + 12, 18, 29 thorough) a deterministic multiset of ~9000 pushes (60 clusters, a whole aligned coarse cell of 4096 cells, an unaligned run of 1500, 400 repeats) in 3 orders x 5 capacities x 2 flags",
       "repush_size_sweep": format!("a whole tile then n of its cells again + 2 cells after it, every n in 1..={}, capacity = tile size (drain = or of the packed tile with n covered entries), both flags and the reverse arrival order", sweep_max),
+      "merge_cascades": format!("{} staircase sequences: every cascade length 1..=29 (3k+1 entries), 4 child paths, all full / one partial stair / partial last cell; pack and lower depths 0..3", stairs.len()),
       "small": "all subsets of the depth-0 cells, of the depth-1... (12 cells) and of 11 cells of depth 29, both orders; all rotations of the 48 depth-1 cells",
       "sequences": format!("{} valid entry sequences (universe depth 2 chain-first with partial flags and unpacked shapes{}) x pack and every lower depth", all_seq.len(), if quick { "" } else { ", depth 3 chain-last" })}),
     "every push history / run / subset / entry sequence listed in bounds",
